@@ -2,8 +2,8 @@
 from harness import fam_raops, fam_ra2
 TRUSTED = fam_raops.TRUSTED
 ASSUME = ["integer element values (element operations and result dtypes are numpy's own; floats only with exactly representable results)"]
-RULE = "operations: reduce argmax argmin; " + fam_raops.RULE
+RULE = "operations: reduce argmax argmin rowmean; " + fam_raops.RULE
 def run(R, tier, rng):
-    fam_raops.run_family(R, tier, rng, set("reduce argmax argmin".split()))
+    fam_raops.run_family(R, tier, rng, set("reduce argmax argmin rowmean".split()))
     fam_ra2.run_c05(R, tier, rng)
     fam_ra2.both_variants(lambda R_, t_, r_: fam_ra2.run_sequences(R_, t_, r_, 'reduce'))(R, tier, rng)
